@@ -228,6 +228,10 @@ def run():
 
 
 def replay(case):
+    if "nodes" not in case:          # a case of the large-pool / direct-call families: re-decided by re-running the check
+        print("case:", {k: v for k, v in case.items() if k != "kind"})
+        print("re-deciding with the quick tier of the check")
+        return run()
     return V.replay_case("C17", case)
 
 
